@@ -1,6 +1,6 @@
 //@ unit conv_env
 //@ serves C08
-//@ must_verify EnvConverter::convert_tuple EnvConverter::convert_list EnvConverter::write shell_escape_single_quoted verif_replace_char lemma_env_str_line_one_word lemma_plain_prefix
+//@ must_verify EnvConverter::convert_tuple EnvConverter::convert_list EnvConverter::write shell_escape_single_quoted verif_replace_char lemma_env_str_line_one_word lemma_plain_prefix lemma_plain_word lemma_bool_words_plain
 //@ include prelude/head.rs
 use std::rc::Rc;
 
